@@ -11,7 +11,9 @@ PID = "C26"
 ATOMS = [None, True, False, 0, -1, 2 ** 70, 0.1, -2.5e-7, 1e308, "", "a", "é ", "\ud800", "x\ny\"z\\"]
 SMALL = [None, True, 0, 0.1, "", "a"]
 KEYS = ["", "k", "é", "1"]
-NAMES = ["C26_NEW_%d", "A", "ENTRY_SIGNAL", "SEARCH_FOR_SUPER_SIGNAL", "", "a b", "événement", "9", "None"]
+NAMES = ["C26_NEW_%d", "A", "ENTRY_SIGNAL", "SEARCH_FOR_SUPER_SIGNAL", "", "a b", "événement", "9", "None",
+         # characters that need escaping in the text form
+         "back\\slash", "dir\\name", "trailing\\", "quo\"ted", "tab\there", "new\nline", "\\u0041", "nul\x00", "C26 \\ %d"]
 # names that are also attributes of the registry object (an OrderedDict subclass): a lookup that goes through attribute
 # access instead of the mapping would find the attribute, not the signal
 SHADOW = ["keys", "values", "items", "get", "pop", "clear", "update", "append", "name_for_signal", "is_inner_signal",
